@@ -1,0 +1,292 @@
+//go:build verif
+
+package jd
+
+import (
+	"fmt"
+	"sort"
+	"strings"
+)
+
+// Native helpers for the replay / runtime-assertion harness of the verifier in /verif (v1 library).
+
+var verifKeys = []string{"a", "b", "0"}
+
+var verifDocCache = map[int][]JsonNode{}
+
+// verifScalars is the base alphabet of scalar documents.
+func verifScalars() []JsonNode {
+	return []JsonNode{jsonNull(nil), jsonBool(true), jsonNumber(0), jsonNumber(1), jsonString(""), jsonString("a")}
+}
+
+// verifDocs returns all documents with at most n nodes over the base alphabet
+// (arrays as jsonArray, objects over verifKeys), without void.
+func verifDocs(n int) []JsonNode {
+	var out []JsonNode
+	for size := 1; size <= n; size++ {
+		out = append(out, verifDocsOfSize(size)...)
+	}
+	return out
+}
+
+func verifDocsOfSize(size int) []JsonNode {
+	if v, ok := verifDocCache[size]; ok {
+		return v
+	}
+	var out []JsonNode
+	if size == 1 {
+		out = append(out, verifScalars()...)
+		out = append(out, jsonArray{}, jsonObject{})
+		verifDocCache[size] = out
+		return out
+	}
+	// arrays: children sizes sum to size-1
+	for _, seq := range verifSeqs(size - 1) {
+		out = append(out, jsonArray(seq))
+	}
+	// objects: distinct sorted keys with children sizes summing to size-1
+	var rec func(keyFrom int, remaining int, cur jsonObject)
+	rec = func(keyFrom int, remaining int, cur jsonObject) {
+		if remaining == 0 {
+			if len(cur) > 0 {
+				c := jsonObject{}
+				for k, v := range cur {
+					c[k] = v
+				}
+				out = append(out, c)
+			}
+			return
+		}
+		for ki := keyFrom; ki < len(verifKeys); ki++ {
+			for s := 1; s <= remaining; s++ {
+				for _, child := range verifDocsOfSize(s) {
+					cur[verifKeys[ki]] = child
+					rec(ki+1, remaining-s, cur)
+					delete(cur, verifKeys[ki])
+				}
+			}
+		}
+	}
+	rec(0, size-1, jsonObject{})
+	verifDocCache[size] = out
+	return out
+}
+
+// verifSeqs returns all non-empty sequences of documents whose sizes sum to total.
+func verifSeqs(total int) [][]JsonNode {
+	if total == 0 {
+		return nil
+	}
+	var out [][]JsonNode
+	for s := 1; s <= total; s++ {
+		for _, head := range verifDocsOfSize(s) {
+			if s == total {
+				out = append(out, []JsonNode{head})
+				continue
+			}
+			for _, tail := range verifSeqs(total - s) {
+				seq := append([]JsonNode{head}, tail...)
+				out = append(out, seq)
+			}
+		}
+	}
+	return out
+}
+
+// verifSmallArrays: every array over {1,2,3} of length 0..maxLen.
+func verifSmallArrays(maxLen int) []jsonArray {
+	out := []jsonArray{{}}
+	prev := []jsonArray{{}}
+	for l := 1; l <= maxLen; l++ {
+		var next []jsonArray
+		for _, p := range prev {
+			for _, v := range []float64{1, 2, 3} {
+				a := append(append(jsonArray{}, p...), jsonNumber(v))
+				next = append(next, a)
+			}
+		}
+		out = append(out, next...)
+		prev = next
+	}
+	return out
+}
+
+// verifCloneNode is a deep copy.
+func verifCloneNode(n JsonNode) JsonNode {
+	switch v := n.(type) {
+	case jsonArray:
+		return jsonArray(verifCloneNodes(v))
+	case jsonList:
+		return jsonList(verifCloneNodes(v))
+	case jsonSet:
+		return jsonSet(verifCloneNodes(v))
+	case jsonMultiset:
+		return jsonMultiset(verifCloneNodes(v))
+	case jsonObject:
+		o := jsonObject{}
+		for k, x := range v {
+			o[k] = verifCloneNode(x)
+		}
+		return o
+	}
+	return n
+}
+
+func verifCloneNodes(l []JsonNode) []JsonNode {
+	if l == nil {
+		return nil
+	}
+	out := make([]JsonNode, len(l))
+	for i, x := range l {
+		out[i] = verifCloneNode(x)
+	}
+	return out
+}
+
+// verifPick maps the k-th sample (0 <= k < cap) of a product space of the given total size to an
+// index: the whole space in order when it fits, otherwise a seeded stride walk.
+func verifPick(total, capN, seed, k int64) int64 {
+	if total <= capN {
+		return k
+	}
+	const stride = 2654435761 // odd; coprime with most totals
+	return (seed%total + (k%total)*(stride%total)) % total
+}
+
+func verifInts() []int { return []int{-2, -1, 0, 1, 2, 3, 5} }
+
+func verifStrings() []string { return []string{"", "a", "b", "0", "-", "a/b", "~", "1"} }
+
+func verifBools() []bool { return []bool{false, true} }
+
+// verifCloneNode is a deep copy.
+// verifCloneNode is a deep copy.
+// verifCloneNode is a deep copy.
+// verifNodes: documents plus void and arrays with repeats / reorderings / growth / shrinkage.
+func verifNodes(tier int) []JsonNode {
+	out := []JsonNode{voidNode{}}
+	out = append(out, verifDocs(tier+2)...)
+	maxLen := 3
+	if tier >= 1 {
+		maxLen = 4
+	}
+	for _, a := range verifSmallArrays(maxLen) {
+		out = append(out, a)
+	}
+	for i, a := range verifSmallArrays(3) {
+		if i%5 == 0 {
+			out = append(out, jsonObject{"k": a})
+		}
+	}
+	out = append(out,
+		jsonNumber(1.25), jsonArray{jsonNumber(1.25)},
+		jsonObject{"1": jsonNumber(1)}, jsonObject{"1": jsonNumber(2), "a/b": jsonNumber(1)}, jsonObject{"~": jsonArray{jsonNumber(1)}},
+		jsonArray{jsonObject{"a": jsonNumber(1), "b": jsonNumber(2)}}, jsonArray{jsonObject{"a": jsonNumber(1), "b": jsonNumber(3)}},
+		jsonArray{jsonArray{jsonNumber(1), jsonNumber(2)}}, jsonArray{jsonArray{jsonNumber(2), jsonNumber(1)}},
+		jsonObject{"a": jsonObject{"b": jsonObject{"c": jsonObject{"x": jsonNumber(1), "y": jsonNumber(2)}}}},
+		jsonObject{"a": jsonObject{"b": jsonObject{"c": jsonObject{"y": jsonNumber(2), "z": jsonNumber(3)}}}},
+	)
+	return out
+}
+
+func verifMetadataSets() [][]Metadata {
+	return [][]Metadata{nil, {SET}, {MULTISET}, {Setkeys("a")}, {MERGE}, {SetPrecision(0.5)}}
+}
+
+func verifShow(x interface{}) string {
+	switch v := x.(type) {
+	case nil:
+		return "nil"
+	case voidNode:
+		return "void"
+	case JsonNode:
+		return v.Json()
+	case []Metadata:
+		var parts []string
+		for _, m := range v {
+			parts = append(parts, m.string())
+		}
+		return "meta[" + strings.Join(parts, ",") + "]"
+	}
+	return fmt.Sprintf("%v", x)
+}
+
+func verifLit(x interface{}) string {
+	list := func(l []JsonNode) string {
+		var parts []string
+		for _, e := range l {
+			parts = append(parts, verifLit(e))
+		}
+		return "{" + strings.Join(parts, ", ") + "}"
+	}
+	switch v := x.(type) {
+	case nil:
+		return "nil"
+	case jsonArray:
+		return "jsonArray" + list(v)
+	case jsonList:
+		return "jsonList" + list(v)
+	case jsonSet:
+		return "jsonSet" + list(v)
+	case jsonMultiset:
+		return "jsonMultiset" + list(v)
+	case voidNode:
+		return "voidNode{}"
+	case jsonNull:
+		return "jsonNull(nil)"
+	case jsonBool:
+		return fmt.Sprintf("jsonBool(%v)", bool(v))
+	case jsonNumber:
+		return fmt.Sprintf("jsonNumber(%v)", float64(v))
+	case jsonString:
+		return fmt.Sprintf("jsonString(%q)", string(v))
+	case jsonObject:
+		keys := make([]string, 0, len(v))
+		for k := range v {
+			keys = append(keys, k)
+		}
+		sort.Strings(keys)
+		var parts []string
+		for _, k := range keys {
+			parts = append(parts, fmt.Sprintf("%q: %s", k, verifLit(v[k])))
+		}
+		return "jsonObject{" + strings.Join(parts, ", ") + "}"
+	case []Metadata:
+		if v == nil {
+			return "nil"
+		}
+		var parts []string
+		for _, m := range v {
+			switch mv := m.(type) {
+			case setMetadata:
+				parts = append(parts, "SET")
+			case multisetMetadata:
+				parts = append(parts, "MULTISET")
+			case mergeMetadata:
+				parts = append(parts, "MERGE")
+			case setkeysMetadata:
+				var ks []string
+				for k := range mv.keys {
+					ks = append(ks, fmt.Sprintf("%q", k))
+				}
+				sort.Strings(ks)
+				parts = append(parts, "Setkeys("+strings.Join(ks, ", ")+")")
+			case precisionMetadata:
+				parts = append(parts, fmt.Sprintf("SetPrecision(%v)", mv.precision))
+			}
+		}
+		return "[]Metadata{" + strings.Join(parts, ", ") + "}"
+	case string:
+		return fmt.Sprintf("%q", v)
+	case int, bool, float64:
+		return fmt.Sprintf("%v", v)
+	}
+	return fmt.Sprintf("%#v", x)
+}
+
+func verifCloneMetadata(m []Metadata) []Metadata {
+	if m == nil {
+		return nil
+	}
+	return append([]Metadata{}, m...)
+}
